@@ -118,6 +118,48 @@ pub fn stake_history(out: &mut crate::Out, tag: &str, seed: u64, net: NetID, sta
             d.seal_next(None);
         }
     }
+    // sibling blocks: two competing continuations of one parent, each registering a different stake, sealed one after the other; then the
+    // parent, both siblings and a child of each are looked at again (a header is a function of its own state's contents, whatever
+    // was derived from it or next to it in the same process)
+    {
+        let cur_epoch = d.view().height.epoch();
+        if let Some(parent) = d.seal_next(Some(true)) {
+            let base = d.cur;
+            let locked: Vec<TxHash> = d.view().stakes.iter().map(|(k, _)| *k).collect();
+            let sp: Vec<_> = d.spendable().into_iter().filter(|(c, _)| !locked.contains(&c.txhash)).collect();
+            let syms: Vec<_> = sp.iter().filter(|(_, x)| x.coin_data.denom == Denom::Sym && x.coin_data.value.0 > 1000).take(2).cloned().collect();
+            let fees: Vec<_> = sp.iter().filter(|(_, x)| x.coin_data.denom == Denom::Mel && x.coin_data.value.0 > 1_000_000).take(2).cloned().collect();
+            if syms.len() == 2 && fees.len() == 2 {
+                let mut sibs = vec![];
+                for i in 0..2usize {
+                    d.cur = base;
+                    let amount = syms[i].1.coin_data.value.0 / 2;
+                    if let Some(t) = stake_tx(&mut d, &syms[i], &fees[i], amount, amount, cur_epoch + 1, cur_epoch + 3 + i as u64, i, 0) {
+                        let (u, ok) = d.w.batch(base, &[t], 0, json!({"why": format!("sibling block {}: a stake of its own", i)}));
+                        if ok {
+                            let dest = d.wal.address(CovKind::New(i));
+                            if let Some(s) = d.w.seal(u, Some(ProposerAction { fee_multiplier_delta: 0, reward_dest: dest }), json!({"why": "sibling block sealed"})) {
+                                sibs.push(s);
+                            }
+                        }
+                    }
+                }
+                d.w.reobserve(parent);
+                for s in sibs.clone() {
+                    d.w.reobserve(s);
+                }
+                for s in sibs.clone() {
+                    let u = d.w.next(s);
+                    if let Some(c) = d.w.seal(u, None, json!({"why": "child of a sibling block"})) {
+                        d.w.reobserve(c);
+                    }
+                    d.w.reobserve(s);
+                    d.w.reobserve(parent);
+                }
+            }
+            d.cur = base;
+        }
+    }
     // several stake transactions in one batch, consistent and inconsistent ones mixed, in every order
     {
         let cur_epoch = d.view().height.epoch();
